@@ -691,7 +691,8 @@ class HandshakeSettings(object):
         if ECPointFormat.uncompressed not in other.ec_point_formats:
             raise ValueError("Uncompressed EC point format is not provided")
 
-        if other.dc_sig_algs in DELEGETED_CREDENTIAL_FORBIDDEN_ALG:
+        if any(alg in DELEGETED_CREDENTIAL_FORBIDDEN_ALG
+               for alg in other.dc_sig_algs):
             raise ValueError("The usage of the algorithm is forbidden "
                              "to use with delegated credentials")
         if other.dc_valid_time > DC_VALID_TIME:
